@@ -11,8 +11,11 @@ bases the library itself produces.  With  B~_j(u) = sum_i Bcum[i][j] u^i  (Bcum 
   dg_dvs    D(M_G(g), v_j -> b) == M_G(g) hat_G(dg_dvs[:, block j] b)   for every j (right Jacobian w.r.t. the differences)
   dvel_dvs, dacc_dvs   D(vel, v_j -> b) == dvel_dvs[:, block j] b,  D(acc, v_j -> b) == dacc_dvs[:, block j] b
 Configurations (A7): (K, G) in {(1, SE2), (2, SE2), (3, SE2), (2, SO3), (3, Vector2), (6, Vector1)} x {Bernstein, B-spline}; quick tier: a subset.
-cspline_eval_gs / cspline_eval_dg_dgs go through a pairwise view that clang 14 cannot instantiate: NOT extracted; they are
-three-line wrappers (g_0 * cspline_eval_vs(differences)) and are listed as unverified.
+  gs        cspline_eval_gs(g_0..g_K, B, u) == g_0 * cspline_eval_vs(g_i (-) g_(i-1), B, u), vel and acc identical: the real
+            utils::pairwise_transform_view is executed (rule R5: its std::ranges::view_interface base, which clang 14 cannot
+            instantiate against libstdc++ 12, is replaced by std::ranges::view_base; only unused convenience members are lost)
+            and the result is the same operation DAG as the reference built from rminus / composition / cspline_eval_vs  (struct)
+cspline_eval_dg_dgs (chain rule through dr_expinv / dl_expinv) is NOT under contract: listed as unverified.
 """
 import random
 from fractions import Fraction
@@ -26,13 +29,13 @@ from .lie import Fn, mat_pairs, vec_pairs
 from . import c20
 
 PROP = "C11"
-RULES = ("R1", "R2")
+RULES = ("R1", "R2", "R5")
 GROUPS = {"se2": ("smooth::SE2d", G_.se2), "so3": ("smooth::SO3d", G_.so3), "v2": ("Eigen::Matrix<double, 2, 1>", G_.r2), "v1": ("Eigen::Matrix<double, 1, 1>", G_.r1)}
 CONFIGS = [(1, "se2"), (2, "se2"), (3, "se2"), (2, "so3"), (3, "v2"), (6, "v1")]
 
 
 def tu():
-    t = ('#include <cmath>\n#include <array>\n#include <Eigen/Core>\n#include <smooth/se2.hpp>\n#include <smooth/so3.hpp>\n#include <smooth/spline/cumulative_spline.hpp>\n'
+    t = ('#include <cmath>\n#include <array>\n#include <span>\n#include <Eigen/Core>\n#include <smooth/se2.hpp>\n#include <smooth/so3.hpp>\n#include <smooth/spline/cumulative_spline.hpp>\n'
          'using namespace smooth;\n'
          'template<int K, class G, PolynomialBasis B> struct CS {\n'
          '  static constexpr int N = Dof<G>;\n'
@@ -46,12 +49,22 @@ def tu():
          '    Eigen::Matrix<double, N, K> V = Eigen::Map<const Eigen::Matrix<double, N, K>>(v); SplineJacobian<G, K - 1> dv, da;\n'
          '    const SplineJacobian<G, K - 1> d = cspline_eval_dg_dvs<K, G>(V.colwise(), basis(), u, dv, da);\n'
          '    Eigen::Map<SplineJacobian<G, K - 1>> O(dg); O = d; Eigen::Map<SplineJacobian<G, K - 1>> O1(dvel); O1 = dv; Eigen::Map<SplineJacobian<G, K - 1>> O2(dacc); O2 = da; }\n'
+         '  static G get(const double*p){ if constexpr (std::is_base_of_v<Eigen::MatrixBase<G>, G>) { return Eigen::Map<const G>(p); } else { return smooth::Map<const G>(p); } }\n'
+         '  static void tput(double*p, const Eigen::Matrix<double, N, 1>&t){ Eigen::Map<Eigen::Matrix<double, N, 1>> O(p); O = t; }\n'
+         '  // cspline_eval_gs under contract (l*) next to  g_0 * cspline_eval_vs(g_i (-) g_(i-1))  built from public operations (r*)\n'
+         '  template<int RR> static void gs(const double*c, double u, double*l, double*lv, double*la, double*r, double*rv, double*ra){\n'
+         '    std::array<G, K + 1> g; for (int i = 0; i <= K; ++i) { g[i] = get(c + i * RR); }\n'
+         '    Eigen::Matrix<double, N, 1> v1, a1, v2, a2;\n'
+         '    put(l, cspline_eval_gs<K>(std::span<const G>(g.data(), K + 1), basis(), u, v1, a1)); tput(lv, v1); tput(la, a1);\n'
+         '    Eigen::Matrix<double, N, K> V; for (int j = 0; j < K; ++j) { V.col(j) = rminus(g[j + 1], g[j]); }\n'
+         '    put(r, composition(g[0], cspline_eval_vs<K, G>(V.colwise(), basis(), u, v2, a2))); tput(rv, v2); tput(ra, a2); }\n'
          '};\n')
     for (K, g) in CONFIGS:
         ty = GROUPS[g][0]
         for bn, b in (("bern", "Bernstein"), ("bspl", "Bspline")):
             nm = "cs_%d_%s_%s" % (K, g, bn)
             t += 'extern "C" void %s_vs(const double*v,double u,double*g,double*ve,double*ac,double*je){ CS<%d, %s, PolynomialBasis::%s>::vs(v,u,g,ve,ac,je); }\n' % (nm, K, ty, b)
+            t += 'extern "C" void %s_gs(const double*c,double u,double*l,double*lv,double*la,double*r,double*rv,double*ra){ CS<%d, %s, PolynomialBasis::%s>::gs<%d>(c,u,l,lv,la,r,rv,ra); }\n' % (nm, K, ty, b, GROUPS[g][1].rep)
             t += 'extern "C" void %s_dvs(const double*v,double u,double*dg,double*dv,double*da){ CS<%d, %s, PolynomialBasis::%s>::dvs(v,u,dg,dv,da); }\n' % (nm, K, ty, b)
     return t
 
@@ -227,13 +240,81 @@ def run_config(K, g, tier="quick", seed=0, canary=False):
                                         coef_tol=Fraction(1, 10 ** 12), signvars=sv,
                                         subst=(lambda ctx, uval=uval: {"u": poly.RF(ctx.const_lp(uval))}))
         guarded(res, tag + "::eval_dg_dvs", go_dvs)
-    res.unverified += ["cspline_eval_gs / cspline_eval_dg_dgs (pairwise view not instantiable by clang 14): covered only as g_0 * cspline_eval_vs by reading the source"]
+    res.unverified += ["cspline_eval_dg_dgs (chain rule from differences to control points): not under contract"]
+    return res
+
+
+def ctrl_env(G, K, rng, isvec, name="c"):
+    """K+1 control points with consecutive differences inside the injectivity radius"""
+    e = {}
+    R = G.rep
+    for i in range(K + 1):
+        ge = {"_%d" % k: rng.uniform(-1, 1) for k in range(R)} if isvec else G.sample_group(rng, "_")
+        for k in range(R):
+            e["%s%d" % (name, i * R + k)] = ge["_%d" % k]
+    return e
+
+
+def run_gs(K, g, tier="quick", seed=0):
+    """cspline_eval_gs(g_0..g_K, B, u) == g_0 * cspline_eval_vs(g_i (-) g_(i-1), B, u) with identical vel / acc (the pairwise view
+    of detail/utils.hpp is executed; rule R5)."""
+    ty, G = GROUPS[g]
+    res = Results(PROP)
+    xt = guarded(res, "%s/extract" % PROP, cs_extract)
+    if xt is None:
+        return res
+    isvec = isinstance(G, G_.Rn)
+    N, R = G.dof, G.rep
+    rng = random.Random(seed + 31 * K)
+    for bn in ("bern", "bspl"):
+        tag = "%s/cspline<%d,%s,%s>" % (PROP, K, ty, bn)
+        res.configs.add("K=%d, G=%s, %s" % (K, ty, bn))
+
+        def go(bn=bn, tag=tag):
+            fn = "cs_%d_%s_%s_gs" % (K, g, bn)
+            bufs = [("c", (K + 1) * R, "d"), ("u", None, "d"), ("l", R, "d"), ("lv", N, "d"), ("la", N, "d"), ("r", R, "d"), ("rv", N, "d"), ("ra", N, "d")]
+            envs = []
+            for _ in range(10 if tier == "quick" else 30):
+                e = ctrl_env(G, K, rng, isvec)
+                e["u"] = rng.choice([0.0, 1.0, 0.5, rng.uniform(0, 1), rng.uniform(0, 1)])
+                envs.append(e)
+            views = xt.run_concolic(fn, bufs, envs)
+            res.functions.add("smooth::cspline_eval_gs<%d,%s>, utils::pairwise_transform_view" % (K, ty))
+
+            def samp(rn):
+                e = ctrl_env(G, K, rn, isvec)
+                e["u"] = rn.uniform(0, 1)
+                return e
+
+            def hyp(ctx):
+                if not isvec:
+                    for i in range(K + 1):
+                        for grp in G.unit:
+                            engine.unit_relation(ctx, ["c%d" % (i * R + k) for k in grp])
+            for k, pv in enumerate(views):
+                res.paths += 1
+                oid = "%s::eval_gs/p%d" % (tag, k)
+                if pv.status != "ok":
+                    res.add(oid, "refuted", "struct", 0.0, "%s: %s" % (pv.status, pv.detail[:200]), extra=dict(confirmed=False))
+                    continue
+                prs = [("g%d" % i, a, b) for i, (a, b) in enumerate(zip(pv.out("l"), pv.out("r")))]
+                prs += [("vel%d" % i, a, b) for i, (a, b) in enumerate(zip(pv.out("lv"), pv.out("rv")))]
+                prs += [("acc%d" % i, a, b) for i, (a, b) in enumerate(zip(pv.out("la"), pv.out("ra")))]
+                same = [(e_, a, b) for e_, a, b in prs if a is b]
+                for e_, a, b in same:
+                    res.add("%s/anchored-at-g0-with-differences/%s" % (oid, e_), "proved", "struct", 0.0, "identical operation DAG")
+                rest = [(e_, a, b) for e_, a, b in prs if a is not b]
+                if rest:
+                    prove_pairs(res, oid + "/anchored-at-g0-with-differences", rest, hyp, samp, pv, (xt, fn, bufs), seed=seed, cut=("call", "div"))
+        guarded(res, tag + "::eval_gs", go)
     return res
 
 
 def tasks(tier, seed=0):
     cfgs = [(1, "se2"), (2, "se2"), (3, "v2"), (6, "v1")] if tier == "quick" else CONFIGS
-    return [("c11", "run_config", (K, g), dict(tier=tier, seed=seed, canary=(K == 2 and g == "se2"))) for (K, g) in cfgs]
+    t = [("c11", "run_config", (K, g), dict(tier=tier, seed=seed, canary=(K == 2 and g == "se2"))) for (K, g) in cfgs]
+    t += [("c11", "run_gs", (K, g), dict(tier=tier, seed=seed)) for (K, g) in CONFIGS]
+    return t
 
 
 def prebuild(tier):
